@@ -1178,6 +1178,12 @@ def campaign_order(ck: Check, n: int) -> None:
 def known_findings(ck: Check) -> None:
     """Re-run the stored witness of every open finding on the real code."""
     for f in ck.findings:
+        if "refdefault" in f["witness"]:
+            from . import c05_refdefault
+
+            if c05_refdefault.witness_reproduces(ck, f):
+                ck.known(f["id"], f["what"])
+            continue
         if "inherit_group" in f["witness"]:
             from . import c05_inherit
 
@@ -1258,6 +1264,14 @@ def search_refs(ck: Check) -> None:
             return
 
 
+def search_refdefault(ck: Check) -> None:
+    """Targeted search: members that take their default from the root definition they refer to, under the options that
+    restructure references (collapse_root_models, reuse_model) — the whole family, every kind."""
+    from . import c05_refdefault
+
+    c05_refdefault.search(ck)
+
+
 def search_inherit(ck: Check) -> None:
     """Targeted search: inherited members re-listed by a subclass schema (all kinds, both TypedDict syntaxes)."""
     from . import c05_inherit
@@ -1269,10 +1283,12 @@ def search_inherit(ck: Check) -> None:
 
 
 def run(ck: Check) -> None:
-    from . import c05_groups, c05_inherit, c05_refs, c05_union
+    from ..translate import parse_passes
+    from . import c05_groups, c05_inherit, c05_refdefault, c05_refs, c05_union
 
     quick = ck.tier == "quick"
     ck.translate("FieldTemplates", field_templates.generate())
+    ck.translate("ParsePasses", parse_passes.generate())  # C09's table of the post-passes of Parser.parse (imported, not owned)
     ck.prove()
     ck.assumptions += [
         "abstract space: one member of scalar / array-of-scalar / dict-of-scalar type, or an anyOf / oneOf of scalar alternatives ({type: T}, {type: [T, null]}, OpenAPI {type: T, nullable: true}, {type: null}; at least one alternative has a type), or a $ref to an object definition (plain / type: [object, null] / OpenAPI nullable: true; default absent or null); const, default_factory extras, model-typed defaults and unions over containers or references are outside it",
@@ -1312,6 +1328,8 @@ def run(ck: Check) -> None:
     # `$ref`-typed members: a reference to a (nullable) object definition, in every definition order and across files
     c05_refs.campaign_refrule(ck, 400 if quick else 4000)
     run_batch(ck, camps, c05_refs.core_block() + (c05_refs.stratified(ck, 150) if quick else c05_refs.block(ck)))
+    # members that take their default from the root definition they refer to, under collapse_root_models / reuse_model
+    c05_refdefault.campaign(ck, quick)
     # inherited members re-listed as required by a subclass schema
     icamps = c05_inherit.make_campaigns(ck, camps)
     c05_inherit.run_batch(ck, icamps, c05_inherit.core_block(quick=quick) + c05_inherit.random_groups(ck, 150 if quick else 2500))
@@ -1324,7 +1342,7 @@ def run(ck: Check) -> None:
         "sibling_block": "every ordered pair of scalar member archetypes (null source x required/optional/default/null default) of one primitive type x dialect x strict-nullable x kind x layout (same class / one per schema); quick: a quarter of it, string only; plus random groups of 2-3 members (scalar, array, dict, union-typed) in all orders",
         "tier_covers": "all blocks exhaustively (spelling options, realisations and the non-enumerated dimensions of the union block drawn per vector)" if not quick else "stratified sample over the product of all dimensions + corpus + union core block + a quarter of the sibling block",
     }
-    ck.search_hooks += [search_refs, search_inherit, search_siblings, search_union, search_exhaustive]
+    ck.search_hooks += [search_refdefault, search_refs, search_inherit, search_siblings, search_union, search_exhaustive]
     known_findings(ck)
 
 
@@ -1337,6 +1355,10 @@ def replay(ck: Check, path: str) -> int:
         bad = "members" in r and (bad_order([h for _, h in r["members"]]) or r["loads"] != "ok")
         print("REPLAY-FAILS: member order / class creation" if bad else "replay: the oracle does not fail on this input")
         return 1 if bad else 0
+    if inp.get("refdefault"):
+        from . import c05_refdefault
+
+        return c05_refdefault.replay_case(ck, inp["refdefault"])
     if inp.get("inherit_group"):
         from . import c05_inherit
 
